@@ -32,6 +32,8 @@ def run(chk, repo, tier):
                        'tensor-valued operand (value taint from `.A` / `.data` / array parameters; shapes are not values)')
     n6 = arith.linearity_rules(chk, repo, 'C03.R6')
     chk.floor('C03.R6', n6, 12, hard_min=8)
+    from . import support
+    support.storage_type_rules(chk, repo, 'C03.R7', {'mps', 'mpo'})
     chk.floor('C03.R1', n1, 7)
     chk.floor('C03.R2', n2, 14)
     chk.floor('C03.R3', n3, 20)
